@@ -10,8 +10,8 @@ from ..refs import c10_compare as CMP
 
 ID = 'C10'
 LEVEL = 'exploration'
-CASES = {'quick': 480, 'thorough': 8000}
-CASE_TIMEOUT = 90
+CASES = {'quick': 360, 'thorough': 6000}
+CASE_TIMEOUT = 15
 TECHNIQUE = ('property-based testing (Hypothesis), metamorphic relation: generated networks with tanks, level/time/'
              'clock-time controls, rules and leaks are simulated once uninterrupted and once in 2-4 parts (generated pause '
              'points, optional pickle round trip, new simulator object per part); concatenated results must equal the '
@@ -39,6 +39,8 @@ TOLERANCES = {'head_abs_m': 1e-4, 'flow_abs_m3s': 1e-6, 'rel': 1e-5,
 FEAT = {'nj': (2, 7), 'tanks': (1, 2), 'extra_res': (0, 1), 'pumps': True, 'valves': True, 'cvs': True,
         'closed': True, 'leaks': True, 'tank_leaks': True, 'vol_curves': True, 'tank_links_special': True,
         'booster': False, 'wild': 0.0, 'report_all': False,
+        'power_pumps': False,     # WNTR's Newton iteration rarely survives them over many steps; their reverse-flow root is a recorded finding
+
         'hyd_steps': [900, 1800, 3600, 3600, 7200],
         'durations': [6 * 3600, 12 * 3600, 24 * 3600, 24 * 3600, 36 * 3600]}
 OPS = ['>', '>=', '<', '<=']
@@ -53,7 +55,7 @@ def strategy(draw, tier='quick'):
     sp = draw(netgen.network(f))
     o = sp['opts']
     o['rep'] = 'ALL'
-    if o['duration'] // o['hyd'] > 80:
+    if o['duration'] // o['hyd'] > (80 if tier == 'thorough' else 40):
         o['hyd'] = 3600
     nsteps = o['duration'] // o['hyd']
     links = [l for l in sp['pipes'] if not l['cv']] + sp['pumps']
@@ -171,18 +173,19 @@ def check(case):
         wn = build(case)
     except Exception as e:
         return fail(exc_bucket(e, 'build'), 'building the model raised %r' % e, tags)
-    full = S.run_wntr(wn, hw_approx=hw, tol=1e-8)
+    full = S.run_wntr(wn, hw_approx=hw, tol=1e-8, maxiter=1500)
     if full.exception is not None:
         return inconclusive('uninterrupted run raised %s' % type(full.exception).__name__, tags)
     if not full.ok:
-        return inconclusive('uninterrupted run did not converge', tags)
+        why = 'trial limit' if any('maximum number of trials' in w for w in full.warnings) else 'Newton'
+        return inconclusive('uninterrupted run did not converge (%s)' % why, tags)
     # ---- in parts
     wn = build(case)
     parts = []
     ends = list(case['pauses']) + [o['duration']]
     for k, end in enumerate(ends):
         wn.options.time.duration = end
-        run = S.run_wntr(wn, hw_approx=hw, tol=1e-8)       # a new WNTRSimulator object every time
+        run = S.run_wntr(wn, hw_approx=hw, tol=1e-8, maxiter=1500)       # a new WNTRSimulator object every time
         if run.exception is not None:
             return fail(exc_bucket(run.exception, 'part%d_raises' % min(k, 1)),
                         'part %d (to %d s, after pauses %s) raised %r' % (k, end, case['pauses'][:k], run.exception), tags)
@@ -214,7 +217,7 @@ def check(case):
     res = CMP.compare(sp, case['rules'], full, CMP.Table(parts), what='run in parts')
     if res is not None and res[0] == 'fail' and not res[1].startswith('index/'):
         # judge a value/status difference against what two executions of the uninterrupted run differ by themselves
-        noise = S.run_wntr(build(case), hw_approx=hw, tol=2.5e-9)
+        noise = S.run_wntr(build(case), hw_approx=hw, tol=2.5e-9, maxiter=1500)
         if noise.exception is not None or not noise.ok:
             return inconclusive('the uninterrupted run is not reproducible under a solver-tolerance perturbation', tags)
         res = CMP.compare(sp, case['rules'], full, CMP.Table(parts), what='run in parts', noise=noise)
